@@ -11,6 +11,8 @@ pub fn run(id: &str) -> Result<String, String> {
         "F6" => f6(),
         "F12" => f12(),
         "F17" => f17(),
+        "F3a" => f3a(),
+        "F3b" => f3b(),
         "F24" => f24(),
         "F25" => f25(),
         "F26" => f26(),
@@ -389,4 +391,48 @@ fn f29() -> Result<String, String> {
         match r { Err(_) => bad.push(format!("{what}: PANIC")), Ok(Err(e)) => bad.push(format!("{what}: {e}")), Ok(Ok(1)) => {}, Ok(Ok(n)) => bad.push(format!("{what}: {n} records")) }
     }
     if bad.is_empty() { Ok("\"cases\":4".into()) } else { Err(bad.join("; ")) }
+}
+
+/// F3a: querying a CSI/BAI index that stores a bin id beyond the geometry's bin range must not panic.
+fn f3a() -> Result<String, String> {
+    use noodles_csi::{self as csi, binning_index::{BinningIndex, index::{ReferenceSequence, reference_sequence::{Bin, index::BinnedIndex}}}};
+    let mut n = 0;
+    for id in [37449usize, 37450, 40000, 1 << 20, usize::MAX] {
+        n += 1;
+        let r = std::panic::catch_unwind(move || {
+            let bins = [(id, Bin::new(Vec::new()))].into_iter().collect();
+            let rs: ReferenceSequence<BinnedIndex> = ReferenceSequence::new(bins, BinnedIndex::default(), None);
+            let index = csi::binning_index::Index::builder().set_min_shift(14).set_depth(5).set_reference_sequences(vec![rs]).build();
+            let region: noodles_core::Region = "sq0:1-1000".parse().unwrap();
+            let _ = index.query(0, region.interval());
+        });
+        if r.is_err() { return Err(format!("csi Index::query PANICS when the index stores bin id {id} (geometry 14/5)")); }
+    }
+    Ok(format!("\"cases\":{n}"))
+}
+
+/// F3b: csi read_index must reject geometries the query code cannot handle (depth > 10, min_shift = 0, shift overflow) instead of panicking later.
+fn f3b() -> Result<String, String> {
+    use std::io::Write as _;
+    let mut n = 0;
+    for (min_shift, depth) in [(14i32, 11i32), (0, 5), (40, 10), (63, 1), (-1, 5), (14, -1), (14, 255)] {
+        n += 1;
+        let mut raw = b"CSI\x01".to_vec();
+        raw.extend(min_shift.to_le_bytes()); raw.extend(depth.to_le_bytes()); raw.extend(0i32.to_le_bytes());
+        raw.extend(1i32.to_le_bytes()); // n_ref
+        raw.extend(0i32.to_le_bytes()); // n_bin
+        let mut w = noodles_bgzf::io::Writer::new(Vec::new());
+        w.write_all(&raw).map_err(|e| e.to_string())?;
+        let data = w.finish().map_err(|e| e.to_string())?;
+        let r = std::panic::catch_unwind(move || {
+            use noodles_csi::binning_index::BinningIndex;
+            let mut reader = noodles_csi::io::Reader::new(&data[..]);
+            if let Ok(index) = reader.read_index() {
+                let region: noodles_core::Region = "sq0:1-1000".parse().unwrap();
+                let _ = index.query(0, region.interval());
+            }
+        });
+        if r.is_err() { return Err(format!("reading/querying a CSI index with min_shift={min_shift}, depth={depth} PANICS")); }
+    }
+    Ok(format!("\"cases\":{n}"))
 }
